@@ -3,7 +3,7 @@ import PyxModel.Sql.Wire
 import PyxModel.Sql.Links
 
 /-! driver for `(c01 <mm> "extra text" …)`:
-    answer `((texts t1 … t8) (loads L1 … L8 Lextra …) (links Lm Lr))` — the eight writer routes of xtuml/persist.py on the
+    answer `((texts t1 … t8) (loads L1 … L8 Lextra …) (links Lm Lr) (round2 text₂ itext₂))` — the eight writer routes of xtuml/persist.py on the
     model, and for each of those texts and each extra text what the loader makes of it:
     `(accepted (stmt …) <built model | parsing | meta>)` or `(parsing)`. -/
 namespace Pyx.Driver.C01
@@ -37,11 +37,32 @@ def reloadedLinks (m : MM) : Sexp :=
       | .ok bs => linksSexp (bs.toMM u0)
       | .error _ => sym "none"
 
+/-- the metamodel built from a text, as the writers see it -/
+def rebuilt (t : Option Text) : Option MM :=
+  match t with
+  | none => none
+  | some t =>
+    match classify u0 t with
+    | .parsing => none
+    | .accepted stmts =>
+      match build u0 stmts with
+      | .ok bs => some (bs.toMM u0)
+      | .error _ => none
+
+/-- second round: the `serialize_database` text of the metamodel rebuilt from the `serialize_database` text, and the
+    `serialize_instances` text of the metamodel rebuilt from the instance text alone -/
+def round2 (m : MM) : Sexp :=
+  let r1 := rebuilt (printItems u0 (m.serializeDatabase u0))
+  let r2 := rebuilt (printItems u0 m.serializeInstances)
+  list [sym "round2",
+        optText (r1.bind fun r => printItems u0 (r.serializeDatabase u0)),
+        optText (r2.bind fun r => printItems u0 r.serializeInstances)]
+
 def run (m : MM) (extra : List Text) : Sexp :=
   let texts := (routes m).map (printItems u0)
   let loads := texts.map (fun t => match t with | some t => loadSexp t | none => sym "error") ++ extra.map loadSexp
   list [list (sym "texts" :: texts.map optText), list (sym "loads" :: loads),
-        list [sym "links", linksSexp m, reloadedLinks m]]
+        list [sym "links", linksSexp m, reloadedLinks m], round2 m]
 
 def handle : List Sexp → Option Sexp
   | sym "c01" :: m :: extra =>
